@@ -17,7 +17,10 @@ MAX_DECISIONS = 4000   # per path
 SOLVER_TIMEOUT_MS = 20000
 import os as _os
 FRESH_QFBV = bool(_os.environ.get('SYMX_FRESH'))
-INCR_SLICE_MS = 250
+# z3 resource limits instead of wall-clock timeouts: deterministic, and no timer threads (check() with a short
+# 'timeout' was seen to hang forever inside z3 5.1 after ~16000 calls)
+INCR_SLICE_RLIMIT = 400000
+FRESH_RLIMIT = 400000000
 
 
 class EngineLimit(BaseException):
@@ -35,7 +38,7 @@ class PathAbort(BaseException):
 class Explorer:
     def __init__(self):
         self.solver = z3.Solver()
-        self.solver.set('timeout', INCR_SLICE_MS)
+        self.solver.set('rlimit', INCR_SLICE_RLIMIT)
         self.fresh_mode = FRESH_QFBV
         self.fallbacks = 0
         self.worklist = []
@@ -60,8 +63,9 @@ class Explorer:
         self.pc = []
         self.known = {}
         self.model = None
-        self.solver.reset()
-        self.solver.set('timeout', INCR_SLICE_MS)
+        # a new solver object per path: Solver.reset() was seen to leave z3 in a state where a trivial check() never returns
+        self.solver = z3.Solver()
+        self.solver.set('rlimit', INCR_SLICE_RLIMIT)
 
     def add(self, c):
         self.solver.add(c)
@@ -81,7 +85,7 @@ class Explorer:
         """one-shot bit-blasting solver on a copy of the path condition: far faster than the incremental core on
         arithmetic-heavy queries (measured 20x on 64-bit containment arithmetic), slower on many tiny ones"""
         s2 = z3.SolverFor('QF_BV')
-        s2.set('timeout', SOLVER_TIMEOUT_MS * 3)
+        s2.set('rlimit', FRESH_RLIMIT)
         s2.add(*self.pc)
         s2.add(*extra)
         try:
@@ -1288,12 +1292,52 @@ def sym_dict_get(d, k):
     keys = [key for key in d if (isinstance(key, int) and not isinstance(key, bool) and k.lo <= key <= k.hi) or type(key) is SymInt]
     if not keys:
         raise KeyError(k)
+    vals = [d[key] for key in keys]
+    r = _closed_form_lookup(keys, vals, k)
+    if r is not None:
+        return r
     conds = [(k == key) for key in keys]
     inside = lor(*conds)
     if not inside:
         raise KeyError(k)
-    vals = [d[key] for key in keys]
     return merge_values([zb(c) for c in conds], vals)
+
+
+def _closed_form_lookup(keys, vals, k):
+    """tables over a complete key range whose cells are simple functions of the key (construct's 256-entry
+    byte -> bit-string table, 0/1 -> 0/1 maps): return shift/mask terms instead of a deep if-then-else chain"""
+    if any(type(key) is not int for key in keys):
+        return None
+    if k.lo < 0 or k.hi - k.lo + 1 > 4096 or len(keys) > 65536:
+        return None
+    ks = sorted(keys)
+    if ks[-1] - ks[0] + 1 != len(ks) or ks[0] > k.lo or ks[-1] < k.hi:
+        return None          # some feasible key value might be missing: membership must be forked on
+    lut = dict(zip(keys, vals))
+    dom = list(range(k.lo, k.hi + 1))
+
+    def column(col):
+        if all(c == col[0] for c in col):
+            return col[0]
+        if all(c == key for c, key in zip(col, dom)):
+            return k
+        if all(c in (0, 1) for c in col):
+            for s in range(max(k.hi.bit_length(), 1)):
+                if all(c == ((key >> s) & 1) for c, key in zip(col, dom)):
+                    return (k >> s) & 1
+        return None
+    v0 = lut[dom[0]]
+    if all(type(lut[x]) is int for x in dom):
+        return column([lut[x] for x in dom])
+    if all(isinstance(lut[x], bytes) and len(lut[x]) == len(v0) for x in dom):
+        cells = []
+        for p in range(len(v0)):
+            c = column([lut[x][p] for x in dom])
+            if c is None:
+                return None
+            cells.append(c)
+        return mkbytes(cells)
+    return None
 
 
 def sym_contains(c, x):
